@@ -9,16 +9,21 @@ import (
 	"os"
 	"sort"
 	"sync"
+	"sync/atomic"
 	"time"
 
 	"github.com/jamf/regatta/regattapb"
 	"github.com/jamf/regatta/regattaserver"
 	"github.com/jamf/regatta/replication"
 	"github.com/jamf/regatta/storage"
+	"github.com/jamf/regatta/storage/table/fsm"
 	"github.com/lni/dragonboat/v4"
+	sm "github.com/lni/dragonboat/v4/statemachine"
 	"go.uber.org/zap"
 	"google.golang.org/grpc"
+	"google.golang.org/grpc/codes"
 	"google.golang.org/grpc/credentials/insecure"
+	"google.golang.org/grpc/status"
 
 	"verif/harness/internal/eng"
 	m "verif/harness/internal/model"
@@ -31,7 +36,40 @@ import (
 // compaction, tables created and deleted) while the follower replicates; the follower's (leader index, content,
 // leader index) is sampled all the time.
 
+// followerNode is the node id of the follower engine: distinct from the leader's, so that the FSM.Update hook can
+// tell the follower's state machines from the leader's (both engines live in this process)
+const followerNode = 5
+
+// gatedMeta is the real MetadataServer behind a lock: while the driver holds it, the follower's table
+// reconciliation waits for its answer (a slow RPC)
+type gatedMeta struct {
+	regattapb.UnimplementedMetadataServer
+	inner *regattaserver.MetadataServer
+	mu    sync.RWMutex
+}
+
+func (g *gatedMeta) Get(ctx context.Context, req *regattapb.MetadataRequest) (*regattapb.MetadataResponse, error) {
+	g.mu.RLock()
+	defer g.mu.RUnlock()
+	return g.inner.Get(ctx, req)
+}
+
+// faultyStream breaks a server stream after a number of messages (an RPC failing half way)
+type faultyStream struct {
+	grpc.ServerStream
+	left int
+}
+
+func (f *faultyStream) SendMsg(m any) error {
+	if f.left == 0 {
+		return status.Error(codes.Unavailable, "injected stream failure")
+	}
+	f.left--
+	return f.ServerStream.SendMsg(m)
+}
+
 type replEnv struct {
+	logTimeout time.Duration
 	leader   *storage.Engine
 	follower *storage.Engine
 	fcfg     storage.Config
@@ -71,7 +109,7 @@ func (e *replEnv) startFollowerReplication() {
 	e.mgr = replication.NewManager(f, q, conn, replication.Config{
 		ReconcileInterval: 40 * time.Millisecond,
 		Workers: replication.WorkerConfig{PollInterval: 15 * time.Millisecond, LeaseInterval: 10 * time.Millisecond,
-			LogRPCTimeout: 10 * time.Second, SnapshotRPCTimeout: 30 * time.Second, MaxRecoveryInFlight: 1},
+			LogRPCTimeout: e.logTimeout, SnapshotRPCTimeout: 30 * time.Second, MaxRecoveryInFlight: 1},
 	})
 	if err := e.mgr.Start(); err != nil {
 		die("replication manager: %v", err)
@@ -88,18 +126,43 @@ func (e *replEnv) stopFollower() {
 
 type lWrite struct {
 	table string
+	inc   int // incarnation of the table on the leader (a table deleted and created again is another table)
 	rev   uint64
 	cmd   m.Cmd
 	val   int
 	rs    []m.Resp
 }
 
-func replRun(tr *tracer.T, rng *rand.Rand, nOps int) {
+// classes of behaviours: 0 random history; 1 recovery from a snapshot of a FAT table under back-to-back writes;
+// 2 the follower's state machine stalls for longer than the log RPC timeout (proposals time out but commit);
+// 3 a table is deleted and created again on the leader (once slowly, once faster than the follower looks)
+func replRun(tr *tracer.T, rng *rand.Rand, nOps int, class int, variant int) {
 	if os.Getenv("VDRIVE_DEBUG") != "" {
 		l, _ := zap.NewDevelopment()
 		zap.ReplaceGlobals(l)
 	}
 	tr.Emit(map[string]any{"ev": "reset"})
+	// the follower's state machines can be stalled
+	var stallMu sync.Mutex
+	stallCond := sync.NewCond(&stallMu)
+	stalled := false
+	fsm.VerifUpdateHook = func(shard, replica uint64, ents []sm.Entry) {
+		if replica != followerNode {
+			return
+		}
+		stallMu.Lock()
+		for stalled {
+			stallCond.Wait()
+		}
+		stallMu.Unlock()
+	}
+	setStall := func(v bool) {
+		stallMu.Lock()
+		stalled = v
+		stallCond.Broadcast()
+		stallMu.Unlock()
+	}
+	defer func() { setStall(false); fsm.VerifUpdateHook = nil }()
 	maxMsg := []uint64{0, 300 * 1024, 1024 * 1024, 64 * 1024}[rng.Intn(4)]
 	lc, err := eng.New(1, []int{0, 8}[rng.Intn(2)], func(i int, c *storage.Config) {
 		c.Table.SnapshotEntries = 0 // snapshots / compaction only when the driver asks
@@ -113,15 +176,37 @@ func replRun(tr *tracer.T, rng *rand.Rand, nOps int) {
 	if err != nil {
 		die("listen: %v", err)
 	}
-	srv := grpc.NewServer(grpc.MaxSendMsgSize(16*1024*1024), grpc.MaxRecvMsgSize(16*1024*1024))
-	regattapb.RegisterMetadataServer(srv, &regattaserver.MetadataServer{Tables: leader})
+	// some replication streams (log and snapshot) fail after a few messages
+	var faults atomic.Bool
+	var frng = rand.New(rand.NewSource(rng.Int63()))
+	var frngMu sync.Mutex
+	inject := func(srv any, ss grpc.ServerStream, info *grpc.StreamServerInfo, handler grpc.StreamHandler) error {
+		if faults.Load() {
+			frngMu.Lock()
+			hit, left := frng.Intn(5) == 0, frng.Intn(3)
+			frngMu.Unlock()
+			if hit {
+				return handler(srv, &faultyStream{ServerStream: ss, left: left})
+			}
+		}
+		return handler(srv, ss)
+	}
+	srv := grpc.NewServer(grpc.MaxSendMsgSize(16*1024*1024), grpc.MaxRecvMsgSize(16*1024*1024), grpc.StreamInterceptor(inject))
+	meta := &gatedMeta{inner: &regattaserver.MetadataServer{Tables: leader}}
+	regattapb.RegisterMetadataServer(srv, meta)
 	regattapb.RegisterSnapshotServer(srv, &regattaserver.SnapshotServer{Tables: leader})
 	regattapb.RegisterLogServer(srv, regattaserver.NewLogServer(leader, leader.LogReader, zap.NewNop(), maxMsg))
 	go srv.Serve(lis)
 	defer srv.Stop()
 	// follower configuration (kept for restarts on the same file systems)
 	fcfg := eng.SingleConfig("follower")
-	env := &replEnv{leader: leader, fcfg: fcfg, addr: lis.Addr().String()}
+	fcfg.InitialMembers = map[uint64]string{followerNode: fcfg.InitialMembers[fcfg.NodeID]}
+	fcfg.NodeID = followerNode
+	env := &replEnv{leader: leader, fcfg: fcfg, addr: lis.Addr().String(), logTimeout: 10 * time.Second}
+	if class == 2 {
+		env.logTimeout = 150 * time.Millisecond
+	}
+	faults.Store(class == 0 && rng.Intn(2) == 0)
 
 	tables := []string{"t1"}
 	if err := lc.CreateTable("t1"); err != nil {
@@ -139,6 +224,7 @@ func replRun(tr *tracer.T, rng *rand.Rand, nOps int) {
 		return v
 	}
 	uniq := 0
+	incOf := map[string]int{}
 	heavy := false // backlog phase: many large commands, so that messages and proposals are cut and snapshots take a while
 	write := func(tbl string) {
 		k := keys[rng.Intn(len(keys))]
@@ -149,8 +235,25 @@ func replRun(tr *tracer.T, rng *rand.Rand, nOps int) {
 		}
 		ctx, cancel := ctxT()
 		defer cancel()
-		w := lWrite{table: tbl}
-		switch x := rng.Intn(10); {
+		w := lWrite{table: tbl, inc: incOf[tbl]}
+		switch x := rng.Intn(12); {
+		case x >= 10:
+			// ONCE-MARKER: the first application creates u<n>, any further application creates d<n> - a command
+			// that took effect twice stays visible for ever
+			u, d := []byte(fmt.Sprintf("u%04d", uniq)), []byte(fmt.Sprintf("d%04d", uniq))
+			t := m.Cmd{T: "TXN", Cmp: []m.Cmp{{K: u, Res: "EQUAL", HasVal: true, Val: []byte("1")}},
+				Succ: []m.Op{{T: "put", K: d, V: []byte("dup")}},
+				Fail: []m.Op{{T: "put", K: u, V: []byte("1")}}}
+			pb := t.TxnPB()
+			w.cmd = t
+			r, err := leader.Txn(ctx, &regattapb.TxnRequest{Table: []byte(tbl), Compare: pb.Compare, Success: pb.Success, Failure: pb.Failure})
+			if err != nil {
+				die("leader txn: %v", err)
+			}
+			w.rev, w.rs = r.Header.Revision, m.RespsFromPB(r.Responses)
+			if r.Succeeded {
+				w.val = 1
+			}
 		case x < 3:
 			w.cmd = m.Cmd{T: "PUT", K: k, V: v}
 			r, err := leader.Put(ctx, &regattapb.PutRequest{Table: []byte(tbl), Key: k, Value: v})
@@ -198,9 +301,15 @@ func replRun(tr *tracer.T, rng *rand.Rand, nOps int) {
 	// ---- sampling of the follower
 	type obs struct {
 		table    string
+		fid      uint64 // the follower's shard: a table the follower deleted and created again is another table
+		inc      int    // the leader incarnation this follower table replicates
+		stale    bool   // taken after the leader deleted (and recreated) the table this follower shard replicated
 		li1, li2 uint64
 		kvs      []m.KV
 	}
+	// set by the recreate scenario: the follower shard that replicated the first incarnation of t2
+	var recreated atomic.Bool
+	var oldFid atomic.Uint64
 	var obsMu sync.Mutex
 	var observations []obs
 	var sampleMu sync.RWMutex // the follower engine is never closed while a sample (an open iterator) is in progress
@@ -240,8 +349,16 @@ func replRun(tr *tracer.T, rng *rand.Rand, nOps int) {
 			if kvs == nil {
 				kvs = []m.KV{}
 			}
+			inc, stale := 0, false
+			if tbl == "t2" && recreated.Load() {
+				if t.ClusterID != oldFid.Load() {
+					inc = 1
+				} else {
+					stale = true
+				}
+			}
 			obsMu.Lock()
-			observations = append(observations, obs{tbl, a.Index, b.Index, kvs})
+			observations = append(observations, obs{tbl, t.ClusterID, inc, stale, a.Index, b.Index, kvs})
 			obsMu.Unlock()
 		}
 	}
@@ -266,11 +383,27 @@ func replRun(tr *tracer.T, rng *rand.Rand, nOps int) {
 	if heavy && pre < 25 {
 		pre = 25
 	}
+	if class == 1 {
+		// a FAT table (unique keys, 8-16 MiB): streaming its snapshot takes long enough for many writes to land meanwhile
+		for i, n := 0, 80+rng.Intn(80); i < n; i++ {
+			k, v := []byte(fmt.Sprintf("p%03d", i)), make([]byte, 100*1024)
+			for j := range v {
+				v[j] = byte(rng.Intn(256))
+			}
+			ctx, cancel := ctxT()
+			r, err := leader.Put(ctx, &regattapb.PutRequest{Table: []byte("t1"), Key: k, Value: v})
+			cancel()
+			if err != nil {
+				die("leader put (preload): %v", err)
+			}
+			writes = append(writes, lWrite{table: "t1", rev: r.Header.Revision, cmd: m.Cmd{T: "PUT", K: k, V: v}, val: 1, rs: []m.Resp{}})
+		}
+	}
 	for i := 0; i < pre; i++ {
 		write("t1")
 	}
 	heavy = false
-	if rng.Intn(5) < 3 {
+	if class == 1 || rng.Intn(5) < 3 {
 		compact("t1") // the follower starts after the leader compacted its log: recovery from a snapshot
 	}
 	// a second client keeps writing small commands back to back while the follower starts (and, if the log was
@@ -304,8 +437,152 @@ func replRun(tr *tracer.T, rng *rand.Rand, nOps int) {
 	}()
 	env.startFollowerReplication()
 	time.Sleep(time.Duration(100+rng.Intn(200)) * time.Millisecond)
+	if class == 1 {
+		// keep writing until the follower has installed the snapshot
+		for deadline := time.Now().Add(10 * time.Second); time.Now().Before(deadline); time.Sleep(5 * time.Millisecond) {
+			if t, err := env.follower.GetTable("t1"); err == nil {
+				ctx, cancel := context.WithTimeout(context.Background(), time.Second)
+				li, err := t.LeaderIndex(ctx, false)
+				cancel()
+				if err == nil && li.Index > 0 {
+					break
+				}
+			}
+		}
+	}
 	close(hammerStop)
 	hwg.Wait()
+	lastRevOf := func() map[string]uint64 {
+		mu.Lock()
+		defer mu.Unlock()
+		last := map[string]uint64{}
+		for _, w := range writes {
+			if w.inc == incOf[w.table] && w.rev > last[w.table] {
+				last[w.table] = w.rev
+			}
+		}
+		return last
+	}
+	// the follower has every leader table and has recorded (at least) the leader's last index of each
+	waitConverged := func(d time.Duration) bool {
+		lastRev := lastRevOf()
+		deadline := time.Now().Add(d)
+		for time.Now().Before(deadline) {
+			ok := true
+			ft, err := env.follower.GetTables()
+			if err != nil || len(ft) != len(tables) {
+				ok = false
+			}
+			for _, tbl := range tables {
+				t, err := env.follower.GetTable(tbl)
+				if err != nil {
+					ok = false
+					break
+				}
+				ctx, cancel := context.WithTimeout(context.Background(), time.Second)
+				li, err := t.LeaderIndex(ctx, false)
+				cancel()
+				if err != nil || li.Index < lastRev[tbl] {
+					ok = false
+				}
+			}
+			if ok {
+				return true
+			}
+			time.Sleep(10 * time.Millisecond)
+		}
+		return false
+	}
+	onceMarkers := func(tbl string, n int) {
+		for i := 0; i < n; i++ {
+			uniq++
+			u, d := []byte(fmt.Sprintf("u%04d", uniq)), []byte(fmt.Sprintf("d%04d", uniq))
+			t := m.Cmd{T: "TXN", Cmp: []m.Cmp{{K: u, Res: "EQUAL", HasVal: true, Val: []byte("1")}},
+				Succ: []m.Op{{T: "put", K: d, V: []byte("dup")}},
+				Fail: []m.Op{{T: "put", K: u, V: []byte("1")}}}
+			pb := t.TxnPB()
+			ctx, cancel := ctxT()
+			r, err := leader.Txn(ctx, &regattapb.TxnRequest{Table: []byte(tbl), Compare: pb.Compare, Success: pb.Success, Failure: pb.Failure})
+			cancel()
+			if err != nil {
+				die("leader txn: %v", err)
+			}
+			w := lWrite{table: tbl, inc: incOf[tbl], cmd: t, rev: r.Header.Revision, rs: m.RespsFromPB(r.Responses)}
+			if r.Succeeded {
+				w.val = 1
+			}
+			mu.Lock()
+			writes = append(writes, w)
+			mu.Unlock()
+		}
+	}
+	switch class {
+	case 2:
+		// the follower's state machine stops applying for longer than the log RPC timeout while the leader goes on:
+		// the worker's proposals time out although they are committed and will be applied, and it polls again
+		for round := 0; round < 2; round++ {
+			if !waitConverged(20 * time.Second) {
+				break
+			}
+			setStall(true)
+			onceMarkers("t1", 2+rng.Intn(3))
+			time.Sleep(env.logTimeout*time.Duration(2+rng.Intn(2)) + time.Duration(rng.Intn(60))*time.Millisecond)
+			setStall(false)
+			for j := 0; j < 5; j++ {
+				write("t1")
+			}
+		}
+	case 3:
+		// t2 is created, written, deleted and created again on the leader
+		if err := lc.CreateTable("t2"); err != nil {
+			die("%v", err)
+		}
+		tables = append(tables, "t2")
+		for j := 0; j < 12; j++ {
+			write("t2")
+		}
+		recreate := func(hold bool) {
+			if !waitConverged(20 * time.Second) {
+				return
+			}
+			ft, err := env.follower.GetTable("t2")
+			if err != nil {
+				return
+			}
+			oldFid.Store(ft.ClusterID)
+			if hold {
+				// faster than the follower looks: its metadata request is being answered slowly meanwhile
+				meta.mu.Lock()
+			}
+			recreated.Store(true)
+			if err := leader.DeleteTable("t2"); err != nil {
+				die("delete t2: %v", err)
+			}
+			if !hold {
+				// slowly: the follower sees the leader without t2 and drops its copy
+				deadline := time.Now().Add(20 * time.Second)
+				for time.Now().Before(deadline) {
+					if _, err := env.follower.GetTable("t2"); err != nil {
+						break
+					}
+					time.Sleep(5 * time.Millisecond)
+				}
+			}
+			if err := lc.CreateTable("t2"); err != nil {
+				die("recreate t2: %v", err)
+			}
+			mu.Lock()
+			incOf["t2"]++
+			mu.Unlock()
+			if hold {
+				meta.mu.Unlock()
+			}
+			for j := 0; j < 4; j++ {
+				write("t2")
+			}
+		}
+		recreate(variant%2 == 0)
+	}
 	for i := 0; i < nOps; i++ {
 		write(tables[rng.Intn(len(tables))])
 		switch rng.Intn(25) {
@@ -334,48 +611,16 @@ func replRun(tr *tracer.T, rng *rand.Rand, nOps int) {
 		}
 	}
 	deleted := ""
-	if len(tables) == 2 && rng.Intn(2) == 0 {
+	if len(tables) == 2 && class != 3 && rng.Intn(2) == 0 {
 		if err := leader.DeleteTable("t2"); err == nil {
 			deleted = "t2"
 			tables = tables[:1]
 		}
 	}
 	// ---- quiet: the follower must reach the leader's latest state and table set
-	mu.Lock()
-	lastRev := map[string]uint64{}
-	for _, w := range writes {
-		if w.rev > lastRev[w.table] {
-			lastRev[w.table] = w.rev
-		}
-	}
-	mu.Unlock()
-	deadline := time.Now().Add(30 * time.Second)
-	converged := false
-	for time.Now().Before(deadline) {
-		ok := true
-		ft, err := env.follower.GetTables()
-		if err != nil || len(ft) != len(tables) {
-			ok = false
-		}
-		for _, tbl := range tables {
-			t, err := env.follower.GetTable(tbl)
-			if err != nil {
-				ok = false
-				break
-			}
-			ctx, cancel := context.WithTimeout(context.Background(), time.Second)
-			li, err := t.LeaderIndex(ctx, false)
-			cancel()
-			if err != nil || li.Index < lastRev[tbl] {
-				ok = false
-			}
-		}
-		if ok {
-			converged = true
-			break
-		}
-		time.Sleep(10 * time.Millisecond)
-	}
+	faults.Store(false)
+	lastRev := lastRevOf()
+	converged := waitConverged(30 * time.Second)
 	close(stopSampling)
 	swg.Wait()
 	sample()
@@ -384,20 +629,31 @@ func replRun(tr *tracer.T, rng *rand.Rand, nOps int) {
 	// (its recorded leader index), so the specification compares it with the leader content AT that index.
 	// The order in which the samples were taken is kept in "prev" (the index seen by the previous sample).
 	type mev struct {
+		inc  int
 		idx  uint64
 		kind int // 0 write, 1 observation
 		ev   map[string]any
 	}
 	var merged []mev
 	for _, w := range writes {
-		merged = append(merged, mev{w.rev, 0, map[string]any{"ev": "lwrite", "table": w.table, "rev": w.rev, "c": w.cmd, "val": w.val, "rs": w.rs}})
+		merged = append(merged, mev{w.inc, w.rev, 0, map[string]any{"ev": "lwrite", "table": w.table, "rev": w.rev, "c": w.cmd, "val": w.val, "rs": w.rs}})
 	}
-	prev := map[string]uint64{}
+	if incOf["t2"] > 0 {
+		merged = append(merged, mev{1, 0, -1, map[string]any{"ev": "lrecreate", "table": "t2"}})
+	}
+	type tf struct {
+		t string
+		f uint64
+	}
+	prev := map[tf]uint64{}
 	for _, o := range observations {
-		merged = append(merged, mev{o.li1, 1, map[string]any{"ev": "fobs", "table": o.table, "li1": o.li1, "li2": o.li2, "kvs": o.kvs, "prev": prev[o.table]}})
-		prev[o.table] = o.li2
+		merged = append(merged, mev{o.inc, o.li1, 1, map[string]any{"ev": "fobs", "table": o.table, "li1": o.li1, "li2": o.li2, "kvs": o.kvs, "prev": prev[tf{o.table, o.fid}], "stale": o.stale}})
+		prev[tf{o.table, o.fid}] = o.li2
 	}
 	sort.SliceStable(merged, func(i, j int) bool {
+		if merged[i].inc != merged[j].inc {
+			return merged[i].inc < merged[j].inc
+		}
 		if merged[i].idx != merged[j].idx {
 			return merged[i].idx < merged[j].idx
 		}
@@ -416,6 +672,25 @@ func replRun(tr *tracer.T, rng *rand.Rand, nOps int) {
 	if fnames == nil {
 		fnames = []string{}
 	}
+	// the final content of every table on the follower (the leader's is the specification state after the last write)
+	for _, tbl := range tables {
+		kvs := []m.KV{}
+		okRead := false
+		if t, err := env.follower.GetTable(tbl); err == nil {
+			ctx, cancel := context.WithTimeout(context.Background(), 5*time.Second)
+			if it, err := t.Iterator(ctx, &regattapb.RangeRequest{Table: []byte(tbl), Key: []byte{0}, RangeEnd: []byte{0}}); err == nil {
+				okRead = true
+				it(func(r *regattapb.ResponseOp_Range) bool {
+					for _, p := range r.Kvs {
+						kvs = append(kvs, m.KV{K: append([]byte{}, p.Key...), V: append([]byte{}, p.Value...)})
+					}
+					return true
+				})
+			}
+			cancel()
+		}
+		tr.Emit(map[string]any{"ev": "ffinal", "table": tbl, "read": okRead, "kvs": kvs})
+	}
 	final := map[string]any{"ev": "fquiet", "converged": converged, "leader_tables": tables, "follower_tables": fnames, "deleted": deleted, "last": lastRev}
 	tr.Emit(final)
 	sampleMu.Lock()
@@ -431,6 +706,7 @@ func init() {
 		seed := fs.Int64("seed", 1, "seed")
 		n := fs.Int("n", 3, "behaviours")
 		ops := fs.Int("ops", 60, "leader operations")
+		force := fs.Int("class", -1, "force the class of every behaviour")
 		_ = fs.Parse(args)
 		tr, err := tracer.New(*out)
 		if err != nil {
@@ -442,8 +718,12 @@ func init() {
 			}
 			rng := rand.New(rand.NewSource(*seed*15485863 + int64(b)))
 			start := tr.Lines() + 1
-			replRun(tr, rng, *ops)
-			fmt.Printf("BEHAVIOUR %d lines %d-%d class 0\n", b, start, tr.Lines())
+			class := []int{1, 2, 3, 0, 0}[b%5]
+			if *force >= 0 {
+				class = *force
+			}
+			replRun(tr, rng, *ops, class, b/5)
+			fmt.Printf("BEHAVIOUR %d lines %d-%d class %d\n", b, start, tr.Lines(), class)
 		}
 		if err := tr.Close(); err != nil {
 			die("%v", err)
